@@ -239,5 +239,53 @@ def rule_validator_chain_c18(ctx):
     return rule_validator_chain(ctx, "C18.6")
 
 
-RULES = [("C04.11", rule_validator_chain)]
+IMPURE = ("rand::", "rand_core::", "getrandom::", "std::time::Instant::now", "std::time::SystemTime::now", "time::OffsetDateTime::now", "time::Instant::now", "zksync_concurrency::ctx::Ctx::now",
+          "zksync_concurrency::ctx::clock", "std::env::", "std::thread::", "std::sync::Mutex", "std::sync::RwLock", "std::sync::atomic", "std::cell::", "once_cell::", "std::sync::OnceLock",
+          "std::sync::LazyLock", "std::sync::Once", "parking_lot::", "std::sync::mpsc", "std::sync::Condvar", "std::thread_local", "std::thread::LocalKey", "tokio::sync::", "std::fs::", "std::process::")
+
+
+def rule_verify_pure(ctx, R="C04.12"):
+    ctx.rule(R, "verification is a function of its arguments: the call-graph closure of every verify method of the consensus messages (votes, certificates, proposals, blocks, Signed) and of the signature checks reaches no lock, cell, atomic, lazy/once cell, clock, RNG, thread or environment API - a verdict cannot be remembered from, or influenced by, an earlier call with other arguments (another epoch, chain or committee)")
+    roots = []
+    for f in ctx.F.fns:
+        if f.in_testonly() or f.parent is not None:
+            continue
+        q = f.qname
+        if f.name in ("verify", "verify_msg", "verify_hash", "verify_messages") and (q.startswith("zksync_consensus_roles::validator::") or q.startswith("zksync_consensus_roles::node::") or q.startswith("zksync_consensus_crypto::")) \
+                and (f.item.impl_trait is None):
+            roots.append(f)
+    ctx.floor(R, "verification entry points", len(roots), 14)
+    # class-hierarchy expansion of generic calls (Clone, Debug, ProtoFmt::build ..) reaches every impl in the workspace: the
+    # verification code itself lives in roles / crypto / protobuf / utils, and generated protobuf modules are codecs
+    generated = lambda g: g.in_testonly() or "::proto::" in g.qname or "ReflectMessage>::descriptor" in g.qname or \
+        g.crate not in ("zksync_consensus_roles", "zksync_consensus_crypto", "zksync_protobuf", "zksync_consensus_utils")
+    cl = ctx.cg.closure(roots, generated)
+    bad = []
+    n = 0
+    for g in cl:
+        if generated(g):
+            continue
+        for bi, decl, res, rk in ctx.cg.ext_calls.get(g, []):
+            t = g.blocks[bi]["t"]
+            exp = (t.get("exp") or {}) if isinstance(t, dict) else {}
+            for it in (decl, res):
+                if it is None:
+                    continue
+                n += 1
+                if it.qname.startswith(IMPURE) or any(("<" + p) in it.qname for p in IMPURE):
+                    if str(exp.get("crate", "")).startswith(("tracing", "vise")) or str(exp.get("macro", "")).startswith(("tracing", "vise")):
+                        continue
+                    bad.append((g.qname, it.qname, g.loc(t.get("ln"))))
+    seen = set()
+    for gq, iq, where in bad:
+        k = (gq, iq)
+        if k in seen:
+            continue
+        seen.add(k)
+        ctx.ob(R, "%s -> %s" % (gq.split("::", 2)[-1][-70:], iq[-60:]), False, "%s (reachable from a verify method) uses %s: the verdict can depend on state outside the verified value and the arguments (a remembered earlier verification, time, randomness)" % (gq, iq), where)
+    ctx.ob(R, "no stateful API in the verification closure", not bad, "%d external callees of %d bodies in the closure of %d verify entry points checked" % (n, len(cl), len(roots)) if not bad else "%d stateful callee(s) reachable" % len(seen))
+    ctx.floor(R, "external callees examined", n, 50)
+
+
+RULES = [("C04.11", rule_validator_chain), ("C04.12", rule_verify_pure)]
 RULES_NODE = [("C12.9", rule_node_chain)]
